@@ -39,6 +39,13 @@ add("C04", "property-based testing with closed-form validity predicates (K*, ide
     "Either tie rule is accepted for rounding K; forced-count searches limited to N<=3000; the vectorised scheduler's forced search only in the thorough tier (cost).",
     "DESIGN.md section 6 C04")
 
+add("C05", "property-based differential testing of the public API against a direct-DFT reference on the reported plan + metamorphic band restriction",
+    "Every (sampled) bin of generated full analyses, single-bin requests by L and by fres, and band-restricted analyses is recomputed by the reference "
+    "estimator from the plan the result reports (f, L, D) and the window rebuilt from its definition; band results must equal the masked unrestricted "
+    "results field by field; empty bands must raise.",
+    "numba and numpy backends (CUDA is exercised in C01/C07/C08); flat-top windows unreachable on the pinned tree (empty win_dict).",
+    "DESIGN.md section 6 C05")
+
 MANIFEST = {
     "version": 1,
     "setup_cmd": "/venv/bin/python -m harness.setup",
